@@ -141,28 +141,43 @@ def Named(els, n):
 def avail_before(av0, els, order, a, x):
     # x is available before position a of `order`
     return select(av0, x) or exists(
-        lambda m: 0 <= m and m < a and x in Named(els, order[m]).provided, "int"
+        lambda m: 0 <= m and m < a and x in Named(els, at(order, m)).provided, "int"
+    )
+
+
+def available_is(available, av0, els, order):
+    # `available` = the initial set plus everything the components placed so far provide
+    return (
+        forall(lambda x: implies(x in available, avail_before(av0, els, order, len(order), x)), "val")
+        and forall(lambda x: implies(select(av0, x), x in available), "val")
+        and forall(
+            lambda m, x: implies(
+                0 <= m and m < len(order) and x in Named(els, at(order, m)).provided, x in available
+            ),
+            "int",
+            "val",
+        )
     )
 
 
 def is_component(els, d):
-    return exists(lambda j: 0 <= j and j < len(els) and els[j] is d, "int")
+    return exists(lambda j: 0 <= j and j < len(els) and at(els, j) is d, "int")
 
 
 def sorted_prefix(av0, els, order):
     # `order` is duplicate free, names components only, and is topologically valid
     return (
-        forall(lambda a, b: implies(0 <= a and a < b and b < len(order), order[a] != order[b]), "int", "int")
+        forall(lambda a, b: implies(0 <= a and a < b and b < len(order), at(order, a) != at(order, b)), "int", "int")
         and forall(
             lambda a: implies(
                 0 <= a and a < len(order),
-                is_component(els, Named(els, order[a])) and Named(els, order[a]).name == order[a],
+                is_component(els, Named(els, at(order, a))) and Named(els, at(order, a)).name == at(order, a),
             ),
             "int",
         )
         and forall(
             lambda a, x: implies(
-                0 <= a and a < len(order) and x in Named(els, order[a]).required,
+                0 <= a and a < len(order) and x in Named(els, at(order, a)).required,
                 avail_before(av0, els, order, a, x),
             ),
             "int",
@@ -174,19 +189,44 @@ def sorted_prefix(av0, els, order):
 def waiting_ok(els, order, q):
     # the queue holds components, pairwise distinct by name and distinct from those already placed
     return (
-        forall(lambda a: implies(0 <= a and a < len(q), is_component(els, q[a])), "int")
-        and forall(lambda a, b: implies(0 <= a and a < b and b < len(q), q[a].name != q[b].name), "int", "int")
+        forall(lambda a: implies(0 <= a and a < len(q), is_component(els, at(q, a))), "int")
+        and forall(lambda a, b: implies(0 <= a and a < b and b < len(q), at(q, a).name != at(q, b).name), "int", "int")
         and forall(
-            lambda a, b: implies(0 <= a and a < len(order) and 0 <= b and b < len(q), order[a] != q[b].name),
+            lambda a, b: implies(0 <= a and a < len(order) and 0 <= b and b < len(q), at(order, a) != at(q, b).name),
             "int",
             "int",
         )
     )
 
 
+def sets_apart(available, els):
+    # the components' own sets are not the `available` set that the sorter extends in place
+    return forall(
+        lambda j: implies(
+            0 <= j and j < len(els),
+            not (at(els, j).required is available) and not (at(els, j).provided is available),
+        ),
+        "int",
+    )
+
+
+def fields_ok(els):
+    # the records' sets exist when the sorter is entered (typing of the Dependency fields,
+    # stated for all records at once because it is needed under quantifiers)
+    return forall(
+        lambda j: implies(
+            0 <= j and j < len(els),
+            has_type(at(els, j).required, "set[str]") and has_type(at(els, j).provided, "set[str]"),
+        ),
+        "int",
+    )
+
+
 @contract("mxlpy.model:_sort_dependencies")
 class sort_dependencies:
-    requires = lambda available, elements: elements_ok(elements) and names_distinct(elements)
+    requires = lambda available, elements: (
+        elements_ok(elements) and names_distinct(elements) and sets_apart(available, elements) and fields_ok(elements)
+    )
     raises = {
         MissingDependenciesError: lambda available, elements: exists(
             lambda j: 0 <= j and j < len(elements) and not solvable(available, elements, j), "int"
@@ -196,31 +236,27 @@ class sort_dependencies:
     ensures = lambda available, elements, result: [
         len(result) == len(elements),
         sorted_prefix(old(dom(available)), elements, result),
-        forall(
-            lambda x: iff(x in available, avail_before(old(dom(available)), elements, result, len(result), x)),
-            "val",
-        ),
+        available_is(available, old(dom(available)), elements, result),
         unchanged(elements),
         fresh(result),
     ]
     modifies = lambda available, elements: [available]
     loops = {
         1: lambda available, elements, queue, order: [
-            elems(queue) == take(elems(elements), _i),
+            len(elems(queue)) == _i,
+            forall(lambda a: implies(0 <= a and a < _i, at(elems(queue), a) is at(elements, a)), "int"),
             len(order) == 0,
             dom(available) == old(dom(available)),
             unchanged(elements),
             fresh(queue),
             fresh(order),
+            not (queue is order),
         ],
         2: lambda available, elements, queue, order, i, max_iterations: [
             len(order) + len(elems(queue)) == len(elements),
             sorted_prefix(old(dom(available)), elements, order),
             waiting_ok(elements, order, elems(queue)),
-            forall(
-                lambda x: iff(x in available, avail_before(old(dom(available)), elements, order, len(order), x)),
-                "val",
-            ),
+            available_is(available, old(dom(available)), elements, order),
             unchanged(elements),
             fresh(queue),
             fresh(order),
@@ -230,11 +266,11 @@ class sort_dependencies:
         3: lambda available, elements, queue, unsorted: [
             fresh(queue),
             fresh(unsorted),
-            forall(lambda a: implies(0 <= a and a < len(elems(queue)), is_component(elements, elems(queue)[a])), "int"),
+            forall(lambda a: implies(0 <= a and a < len(elems(queue)), is_component(elements, at(elems(queue), a))), "int"),
             forall(
                 lambda a: implies(
                     0 <= a and a < len(unsorted),
-                    exists(lambda j: 0 <= j and j < len(elements) and elements[j].name == unsorted[a], "int"),
+                    exists(lambda j: 0 <= j and j < len(elements) and at(elements, j).name == at(unsorted, a), "int"),
                 ),
                 "int",
             ),
